@@ -46,6 +46,7 @@ type c16Req struct {
 	Size    int    `json:"size"`
 	Seed    int    `json:"value_seed"`
 	BChunks []int  `json:"body_chunks"`
+	Members int    `json:"gzip_members,omitempty"` // >1: the gzip body is a series of members (RFC 1952), the entity spans them
 	Fault   string `json:"fault"` // "", btrunc, berr, bhdr, bflip, bmislabel
 	FaultAt int    `json:"fault_at_permille"`
 
@@ -161,6 +162,9 @@ func genC16(x *Ctx) *c16Scen {
 			}
 			r.Seed = tp.G(1 << 20)
 			r.BChunks = chunkPlan(tp, tp.Range(1, 3), 97)
+			if r.Coding == "gzip" && tp.Chance(120) {
+				r.Members = tp.Range(2, 3)
+			}
 			if tp.Chance(450) {
 				r.Fault = []string{"btrunc", "berr", "bhdr", "bflip", "bmislabel", "btrail"}[tp.G(6)]
 				r.FaultAt = tp.G(1000)
@@ -256,6 +260,16 @@ func runC16(x *Ctx) {
 				}
 				t.Yield(sim.SiteStart, sim.KNote, uint64(r.ID), f)
 				data := append([]byte{}, r.body...)
+				if r.Members > 1 {
+					// the same entity compressed piecewise: a well-formed gzip body
+					if plain, err := Decode("gzip", data); err == nil && len(plain) >= r.Members {
+						data = nil
+						for m := 0; m < r.Members; m++ {
+							data = append(data, Gzip(plain[m*len(plain)/r.Members:(m+1)*len(plain)/r.Members])...)
+						}
+						t.Count("gzip-bodies-in-several-members")
+					}
+				}
 				if r.Fault == "btrail" {
 					// more data behind the first document (a second document, or junk): whatever the reader
 					// makes of this request, nothing of it may reach a later one
